@@ -727,3 +727,64 @@ def expr_guards(root, target):
         return False
     rec(root, [])
     return out
+
+
+# ---------------------------------------------------- boolean decision tables
+def _subst_eval(expr, assignment):
+    """Evaluate boolean `expr` with sub-expressions whose source is a key of `assignment` replaced by that truth
+    value.  Returns True/False, or None when something else remains."""
+    class R(ast.NodeTransformer):
+        def generic_visit(self, node):
+            if isinstance(node, ast.expr):
+                s_ = src(node)
+                if s_ in assignment:
+                    return ast.copy_location(ast.Constant(value=assignment[s_]), node)
+            return ast.NodeTransformer.generic_visit(self, node)
+    import copy
+    e2 = R().visit(copy.deepcopy(expr))
+    if isinstance(e2, ast.expr) and src(expr) in assignment:
+        return assignment[src(expr)]
+    for n in ast.walk(e2):
+        if not isinstance(n, (ast.Constant, ast.BoolOp, ast.UnaryOp, ast.Compare, ast.And, ast.Or, ast.Not, ast.Eq, ast.NotEq,
+                              ast.Is, ast.IsNot, ast.Load)):
+            return None
+        if isinstance(n, ast.Constant) and not isinstance(n.value, bool):
+            return None
+    try:
+        return bool(eval(compile(ast.fix_missing_locations(ast.Expression(body=e2)), "<table>", "eval"), {"__builtins__": {}}, {}))
+    except Exception:
+        return None
+
+
+def decision_table(cfg, starts, atoms, stops):
+    """For every truth assignment of `atoms` (expression sources), the set of stop nodes reachable from `starts`
+    when branches decidable from the assignment are followed only along the decided edge.
+    Atoms are assumed not to change inside the region (caller checks that).  Returns {assignment tuple: set(node ids)}."""
+    import itertools
+    stop_ids = set(n.id for n in stops)
+    out = {}
+    for vals in itertools.product([True, False], repeat=len(atoms)):
+        asg = dict(zip(atoms, vals))
+        seen, reached = set(), set()
+        stack = list(starts)
+        while stack:
+            n = stack.pop()
+            if n.id in seen:
+                continue
+            seen.add(n.id)
+            if n.id in stop_ids:
+                reached.add(n.id)
+                continue
+            if n.kind == "branch":
+                v = _subst_eval(n.ast, asg)
+                for t, lab in n.succ:
+                    if lab == "exc":
+                        continue
+                    if v is None or (v and lab == "true") or ((not v) and lab == "false"):
+                        stack.append(t)
+            else:
+                for t, lab in n.succ:
+                    if lab != "exc":
+                        stack.append(t)
+        out[vals] = reached
+    return out
